@@ -8,6 +8,7 @@ import Peppi.Lemmas.Transpose
 import Peppi.PremisesCore
 import Peppi.PremisesRow
 import Peppi.Lemmas.C12Cols
+import Peppi.Lemmas.C13Progress
 set_option linter.unusedVariables false
 namespace Peppi.Props.C13
 
@@ -155,5 +156,42 @@ open Extracted in
 theorem parseEvent_extends (ps : ParseState) (bs : Bytes) (code : Nat) (ps' : ParseState) (rest : Bytes)
     (h : parseEvent ps bs = .ok ((code, ps'), rest)) : ps.st.frames.Ext ps'.st.frames :=
   _root_.Peppi.parseEvent_extends ps bs code ps' rest h
+
+/- from `Peppi.Lemmas.C13Progress` -/
+open Extracted in
+theorem DCols_rowView_ext (a b : DCols) (h : a.Ext b) (i : Nat)
+    (h1 : i < a.pre.length) (h2 : i < a.post.length) (h3 : i < a.vlist.length) : a.rowView i = b.rowView i :=
+  _root_.Peppi.DCols.rowView_ext a b h i h1 h2 h3
+
+/- from `Peppi.Lemmas.C13Progress` -/
+open Extracted in
+theorem itemsView_ext (offs offs' : List Nat) (items items' : SCols) (ho : offs <+: offs') (hi : items <+: items') (i : Nat)
+    (h1 : i + 1 < offs.length) (hle : ∀ b, offs[i+1]? = some b → b ≤ items.length) :
+    itemsView offs items i = itemsView offs' items' i :=
+  _root_.Peppi.itemsView_ext offs offs' items items' ho hi i h1 hle
+
+/- from `Peppi.Lemmas.C13Progress` -/
+open Extracted in
+theorem FCols_rowView_ext (F F' : FCols) (h : F.Ext F') (i : Nat) (hid : i < F.id.length) :
+    F.id[i]? = F'.id[i]? ∧
+    ((∀ l, F.start = some l → i < l.length) → F.start.bind (·[i]?) = F'.start.bind (·[i]?)) ∧
+    ((∀ l, F.fend = some l → i < l.length) → F.fend.bind (·[i]?) = F'.fend.bind (·[i]?)) ∧
+    (∀ (k : Nat) (p : PCols), F.ports[k]? = some p → ∃ q : PCols, F'.ports[k]? = some q ∧ p.port = q.port ∧
+      (i < p.leader.pre.length → i < p.leader.post.length → i < p.leader.vlist.length → p.leader.rowView i = q.leader.rowView i) ∧
+      (∀ d, p.follower = some d → ∃ d', q.follower = some d' ∧
+        (i < d.pre.length → i < d.post.length → i < d.vlist.length → d.rowView i = d'.rowView i))) ∧
+    (∀ offs items, F.itemOff = some offs → F.item = some items → i + 1 < offs.length →
+      (∀ b, offs[i+1]? = some b → b ≤ items.length) →
+      ∃ offs' items', F'.itemOff = some offs' ∧ F'.item = some items' ∧ itemsView offs items i = itemsView offs' items' i) :=
+  _root_.Peppi.FCols.rowView_ext F F' h i hid
+
+/- from `Peppi.Lemmas.C13Progress` -/
+open Extracted in
+theorem C13_inprogress (fuel rawLen : Nat) (ps : ParseState) (bs : Bytes) (ps' : ParseState) (rest : Bytes)
+    (h : eventLoop fuel rawLen ps bs = .ok (ps', rest)) (i : Nat) (hid : i < ps.st.frames.id.length) :
+    ps.st.frames.id[i]? = ps'.st.frames.id[i]? ∧
+    (∀ (k : Nat) (p : PCols), ps.st.frames.ports[k]? = some p → ∃ q : PCols, ps'.st.frames.ports[k]? = some q ∧ p.port = q.port ∧
+      (i < p.leader.pre.length → i < p.leader.post.length → i < p.leader.vlist.length → p.leader.rowView i = q.leader.rowView i)) :=
+  _root_.Peppi.C13_inprogress fuel rawLen ps bs ps' rest h i hid
 
 end Peppi.Props.C13
